@@ -180,6 +180,10 @@ func Generate(prop string, r *sim.Rand, tier string) *sim.Plan {
 	case "C07", "C02", "C03", "C17", "C09", "C12", "C10":
 		cfg.Twin = true
 	}
+	if prop == "C16" && r.Chance(0.3) {
+		// requests relayed from another BitXHub to local services whose status changes
+		cfg.Relay = []int{1, 3, 4}[r.Intn(3)]
+	}
 	if prop == "C04" && r.Chance(0.4) {
 		// this node as the source hub of transactions towards another BitXHub
 		cfg.Relay = []int{1, 3, 4, 7}[r.Intn(4)]
@@ -382,7 +386,7 @@ func (g *gen) govOp() CStep {
 
 func (g *gen) transfer() CStep {
 	r := g.r
-	classes := []string{"zero", "one", "small", "small", "exact", "over", "huge", "junk", "neg", "neghuge"}
+	classes := []string{"zero", "one", "small", "small", "exact", "over", "huge", "junk", "neg", "neghuge", "nearly"}
 	if g.cfg.Twin {
 		// twin ("no effect") comparisons need balances that never flip a later outcome: nobody is drained;
 		// fee-stage failures come from dedicated poor accounts instead (op "poor")
@@ -416,6 +420,19 @@ func (g *gen) step(prop string) []CStep {
 		}
 		if g.cfg.RuleOps && r.Chance(0.08) {
 			return []CStep{CStep{Op: "ruleop", A: r.Intn(4), N: r.Intn(2), Act: []string{"update", "update", "update", "register", "logout"}[r.Intn(5)], V: []string{"approve", "approve", "reject"}[r.Intn(3)]}}
+		}
+		if prop == "C16" && g.cfg.Relay > 0 && r.Chance(0.12) {
+			st := g.relayIBTP()
+			st.Proof = ""
+			if r.Chance(0.8) {
+				// mostly validly signed: the gate under test is the destination's status, not the proof
+				st.Signers = nil
+				for i := 0; i < g.cfg.Relay; i++ {
+					st.Signers = append(st.Signers, i)
+				}
+				st.Idx = "next"
+			}
+			return []CStep{st}
 		}
 		if prop == "C16" && r.Chance(0.03) {
 			return []CStep{CStep{Op: "svccycle", A: r.Intn(3), B: r.Intn(3), N: r.Intn(1 << 20)}}
@@ -482,7 +499,7 @@ func (g *gen) step(prop string) []CStep {
 			}
 		}
 		if r.Chance(0.1) {
-			return []CStep{CStep{Op: "eth", A: r.Intn(5), B: r.Intn(8), N: r.Intn(16)}}
+			return []CStep{CStep{Op: "eth", A: r.Intn(5), B: r.Intn(16), N: r.Intn(18)}}
 		}
 		switch r.Weighted([]int{8, 8, 2, 4, 1, 1}) {
 		case 0:
@@ -580,7 +597,7 @@ func (g *gen) step(prop string) []CStep {
 			}
 			switch r.Intn(12) {
 			case 7:
-				return []CStep{CStep{Op: "eth", A: r.Intn(5), B: r.Intn(8), N: r.Intn(16)}}
+				return []CStep{CStep{Op: "eth", A: r.Intn(5), B: r.Intn(16), N: r.Intn(18)}}
 			case 0:
 				return []CStep{g.call()}
 			case 1:
